@@ -24,6 +24,18 @@
 // (legalize; construct; run with the callback; check) on the same input, which gives the hook access
 // to the DetailedPlacer object; its move log must be the one of the Circuit::placeDetailed run.
 //
+// Pass level (this replaces the move-by-move replay on cases with a usable direct run): the driver is
+// not given the logged moves; it is told which pass starts (`pass_swaps a b`, `pass_reorder a b w`, and for the
+// extra pass driven after run(), `pass_inserts a b`) and *generates* the moves with the model of the candidate
+// enumeration (RowNeighbourhood, windows, scan: Model/DetSearch.lean) and of RowReordering's enumeration
+// (Model/DetReorder.lean, DetReorderPass.lean).  The logged moves of the same pass are printed on the
+// implementation side, so every move the real loops perform must be the move the model performs, in order,
+// with the same value()/hpwl()/flag before it.  Shifts are still replayed from the log (lemon is not
+// modelled).  With hook H3b (`h_window`, fixes/hook-h3b-reorder-log.diff) every reordering window — also
+// those without a better order — is compared: registered cells, regions with their boundaries, number of
+// evaluated leaves, best value, decision.  DetailedPlacer::run() never calls runInserts: the direct run
+// drives `runInserts(localSearchNbRows, localSearchNbNeighbours)` once after run() (markers extra_inserts/extra_end).
+//
 // Second oracle (the classifier boundary of KF-C05-1 seen from the objective): whenever no cell has
 // another orientation than at construction, DetailedPlacer::value() must equal Circuit::hpwl() of the
 // export — at every callback and at every primitive move; and no logged shift may increase value()
@@ -79,7 +91,7 @@ static void hook(const char *kind, const int *args, int n) {
   if (k == "h_swap" || k == "h_insert") log->push_back(state(true));
   else if (k == "h_reorder") log->push_back(state(false));  // the two models are mid-enumeration here
   log->push_back(os.str());
-  if (k == "h_shift") log->push_back(state(true));
+  if (k == "h_shift" || k == "h_window") log->push_back(state(true));  // h_window comes after writeback: in sync
 }
 }  // namespace direct
 #endif
@@ -124,6 +136,16 @@ static DirectRun directRun(const Circuit &input, const vd::Params &prm, int time
           pl.run();
           pl.check();
           log.push_back(direct::state(true));
+          {
+            // extra: a pass run() never calls, on the state run() left
+            std::ostringstream ex;
+            ex << "extra_inserts " << prm.p.detailed.localSearchNbRows << " " << prm.p.detailed.localSearchNbNeighbours;
+            log.push_back(ex.str());
+            pl.runInserts(prm.p.detailed.localSearchNbRows, prm.p.detailed.localSearchNbNeighbours);
+            log.push_back("extra_end");
+            pl.check();
+            log.push_back(direct::state(true));
+          }
           direct::placer = nullptr;
           pl.exportPlacement(c);
         } catch (const std::exception &e) {
@@ -150,6 +172,8 @@ static DirectRun directRun(const Circuit &input, const vd::Params &prm, int time
 
 struct Runner {
   vh::Out &out;
+  // pass-level tie (the model generates the moves) instead of the move-by-move replay
+  bool usePassLevel = true;
   explicit Runner(vh::Out &o) : out(o) {}
 
   static Circuit mix(const Circuit &input, const vd::Snap &pos, const vd::Snap &orient) {
@@ -276,8 +300,10 @@ struct Runner {
       if (wantDirect) d = pre ? *pre : directRun(input, prm);
       else d.status = "skipped";
       std::vector<std::string> movesOnly;
-      for (const std::string &l : d.log)
+      for (const std::string &l : d.log) {
+        if (l.rfind("extra_inserts", 0) == 0) break;  // what follows is not part of placeDetailed
         if (l.rfind("val ", 0) != 0 && l.rfind("hp ", 0) != 0) movesOnly.push_back(l);
+      }
       bool useDirect = d.status == "ok" && movesOnly == r.oplog;
       out.count(useDirect ? "direct_run_same_history" : "direct_run_unusable_" + d.status);
       if (!useDirect && d.status == "ok")
@@ -290,7 +316,144 @@ struct Runner {
       bool haveLast = false, valueFailed = false;
       long long lastV = 0;
       bool lastWasShift = false;
+      // the oracle on one "val V H K" line of the direct run
+      auto checkVal = [&](const std::string &l) {
+        long long V, H;
+        int K;
+        std::istringstream ls(l.substr(4));
+        ls >> V >> H >> K;
+        out.count("value_samples");
+        if (K) {
+          out.count("value_samples_orient_kept");
+          if (V != H) {
+            out.count("violation_value_ne_hpwl");
+            if (!valueFailed)
+              out.fail(id, "DetailedPlacer::value() = " + std::to_string(V) + " differs from Circuit::hpwl() = " + std::to_string(H) +
+                               " of the exported placement although no cell's orientation changed since construction", inp);
+            valueFailed = true;
+          }
+        } else if (V != H) out.count("value_ne_hpwl_after_orientation_change");
+        if (lastWasShift) {
+          out.count("shift_samples");
+          if (haveLast && V > lastV) {
+            out.count("violation_shift_increases_value");
+            if (!valueFailed)
+              out.fail(id, "a shift pass wrote positions that increase DetailedPlacer::value() from " + std::to_string(lastV) + " to " +
+                               std::to_string(V) + " (NetworkSimplex optimality assumption)", inp);
+            valueFailed = true;
+          }
+        }
+        lastV = V;
+        haveLast = true;
+        lastWasShift = false;
+      };
+      // "h_window n c*n m (row pred next minPos maxPos)*m nbLeaves improvement hi lo" -> the driver's `win` line
+      auto winLine = [&](const std::string &l) {
+        std::istringstream ls(l.substr(9));
+        std::vector<long long> a;
+        long long x;
+        while (ls >> x) a.push_back(x);
+        std::ostringstream os;
+        os << "win";
+        if (a.size() >= 4) {
+          for (size_t q = 0; q + 2 < a.size(); ++q) os << " " << a[q];
+          os << " " << (a[a.size() - 2] * 2147483648LL + a[a.size() - 1]);
+        }
+        return os.str();
+      };
+      bool genPasses = useDirect && usePassLevel;
+      bool finalDone = false;
+      if (genPasses) {
+        out.count("pass_level_histories");
+        // the passes of DetailedPlacer::run(), each closed by a callback
+        std::vector<char> phases;
+        for (int i = 1; i <= prm.p.detailed.nbPasses; ++i) {
+          phases.push_back('S');
+          if (prm.p.detailed.shiftMaxNbCells >= 2) phases.push_back('H');
+          if (prm.p.detailed.reorderingMaxNbCells >= 2) phases.push_back('R');
+        }
+        bool hasWin = false;
+        for (const std::string &l : lg)
+          if (l.rfind("h_window", 0) == 0) hasWin = true;
+#ifdef COLOQUINTE_VERIF_DETAILED_OPLOG_WINDOWS
+        hasWin = true;
+#endif
+        int phase = -1;          // index in `phases` of the running phase, -1 before run(), phases.size() after
+        char kind = 0;           // kind of the running phase, 'I' for the extra runInserts pass, 0 none
+        bool startAfterVal = false;
+        long long moves = 0, windows = 0;
+        auto closePhase = [&]() {
+          if (kind == 'S') out.impl << "pass_swaps done " << moves << "\n";
+          else if (kind == 'I') out.impl << "pass_inserts done " << moves << "\n";
+          else if (kind == 'R') out.impl << "pass_reorder done " << (hasWin ? windows : moves) << "\n";
+          kind = 0;
+        };
+        auto startPhase = [&]() {
+          ++phase;
+          moves = windows = 0;
+          if (phase >= (int)phases.size()) { kind = 0; return; }
+          kind = phases[phase];
+          // run() hands (localSearchNbNeighbours, localSearchNbRows) to runSwaps(int nbRows, int nbNeighbours)
+          if (kind == 'S')
+            out.ops << "pass_swaps " << prm.p.detailed.localSearchNbNeighbours << " " << prm.p.detailed.localSearchNbRows << "\n";
+          else if (kind == 'R')
+            out.ops << "pass_reorder " << prm.p.detailed.reorderingNbRows << " " << prm.p.detailed.reorderingMaxNbCells << " "
+                    << (hasWin ? 1 : 0) << "\n";
+          out.count(std::string("pass_") + kind);
+        };
+        for (const std::string &l : lg) {
+          if (l == "cb") {
+            closePhase();
+            if (cb > 0 && cb < h.size()) {
+              out.ops << "hpwl\n";
+              out.impl << "hpwl " << h[cb] << "\n";
+            }
+            ++cb;
+            lastWasShift = false;
+            startAfterVal = true;
+          } else if (l.rfind("val ", 0) == 0) {
+            // inside a generated pass the driver prints the line itself; elsewhere it is asked for it
+            bool generated = (kind == 'S' || kind == 'I' || kind == 'R') && !startAfterVal;
+            if (!generated) out.ops << "val\n";
+            out.impl << l << "\n";
+            checkVal(l);
+            if (startAfterVal) {
+              startAfterVal = false;
+              startPhase();
+            }
+          } else if (l.rfind("hp ", 0) == 0) {
+            out.impl << l << "\n";   // generated by pass_reorder
+          } else if (l.rfind("extra_inserts ", 0) == 0) {
+            closePhase();
+            // run() is over: the model's export is the returned placement
+            out.ops << "hpwl\n";
+            out.impl << "hpwl " << h.back() << "\n";
+            finalDone = true;
+            kind = 'I';
+            moves = 0;
+            out.ops << "pass_inserts " << l.substr(14) << "\n";
+            out.count("pass_I");
+          } else if (l == "extra_end") {
+            closePhase();
+          } else if (l.rfind("h_window", 0) == 0) {
+            ++windows;
+            out.count("reorder_windows");
+            out.impl << winLine(l) << "\n";
+          } else if (l.rfind("h_shift", 0) == 0) {
+            out.ops << l << "\n";
+            lastWasShift = true;
+            out.count("logged_shifts");
+          } else if (l.rfind("h_", 0) == 0) {
+            // a move of a generated pass: the driver must produce it itself
+            ++moves;
+            out.count("generated_" + l.substr(2, l.find(' ') - 2));
+            out.impl << "mv " << l.substr(2) << "\n";
+          }
+        }
+        closePhase();
+      } else
       for (const std::string &l : lg) {
+        if (l.rfind("extra_", 0) == 0) break;
         if (l == "cb") {
           if (cb > 0 && cb < h.size()) {
             out.ops << "hpwl\n";
@@ -303,41 +466,16 @@ struct Runner {
           out.ops << (isVal ? "val" : "hp") << "\n";
           out.impl << l << "\n";
           if (!isVal) continue;
-          long long V, H;
-          int K;
-          std::istringstream ls(l.substr(4));
-          ls >> V >> H >> K;
-          out.count("value_samples");
-          if (K) {
-            out.count("value_samples_orient_kept");
-            if (V != H) {
-              out.count("violation_value_ne_hpwl");
-              if (!valueFailed)
-                out.fail(id, "DetailedPlacer::value() = " + std::to_string(V) + " differs from Circuit::hpwl() = " + std::to_string(H) +
-                                 " of the exported placement although no cell's orientation changed since construction", inp);
-              valueFailed = true;
-            }
-          } else if (V != H) out.count("value_ne_hpwl_after_orientation_change");
-          if (lastWasShift) {
-            out.count("shift_samples");
-            if (haveLast && V > lastV) {
-              out.count("violation_shift_increases_value");
-              if (!valueFailed)
-                out.fail(id, "a shift pass wrote positions that increase DetailedPlacer::value() from " + std::to_string(lastV) + " to " +
-                                 std::to_string(V) + " (NetworkSimplex optimality assumption)", inp);
-              valueFailed = true;
-            }
-          }
-          lastV = V;
-          haveLast = true;
-          lastWasShift = false;
+          checkVal(l);
         } else {
           out.ops << l << "\n";
           lastWasShift = l.rfind("h_shift", 0) == 0;
         }
       }
+      if (!finalDone) {
       out.ops << "hpwl\n";
       out.impl << "hpwl " << h.back() << "\n";
+      }
     } else {
       // value function only: the model's Circuit.hpwl on (a sample of) the exposed placements
       for (size_t k = 0; k < st.size(); k += std::max<size_t>(1, st.size() / 3)) {
